@@ -99,6 +99,39 @@ theorem C09_site_conditional (nA f : Nat) (mask : List Bool) :
     disciplined f (siteConditionalArray nA mask) = true ∧ disciplined f (siteConditionalFixed nA mask) = true :=
   ⟨conditional_ok nA f mask, conditional_ok nA f mask⟩
 
+/-- integer-vector-indexed targets: expression and active-scalar right-hand sides -/
+theorem C09_site_indexed (nA size f : Nat) :
+    disciplined f (siteIndexedAssign nA size) = true ∧ disciplined f (siteIndexedFromScalar size) = true :=
+  ⟨arrayAssign_ok nA size f, arrayFromScalar_ok size f⟩
+
+/-- special matrix ← active scalar: `size()` reserved, one operation per stored element -/
+theorem C09_site_special_from_scalar (size stored f : Nat) (h : stored ≤ size) :
+    disciplined f (siteSpecialFromScalar size stored) = true := specialFromScalar_ok size stored f h
+
+/-- Whole-array reduction of an active array, for every function: if each element records at most
+    `n_active + extra_element_cost` operations (whatever else it does: `product` closes a statement per element) and the
+    finishing events are disciplined on their own, the regenerated reservation `(n_active + extra)·n` suffices. -/
+theorem C09_site_reduce_all (nA extra : Nat) (elems : List (List Ev)) (tail : List Ev) (f : Nat)
+    (h : ∀ s ∈ elems, noIdx s = true ∧ pushCount s ≤ nA + extra) (ht : disciplined 0 tail = true) :
+    disciplined f (siteReduceAll (reduce_0 nA 0 elems.length 0 0 extra 0) elems tail) = true :=
+  reduceAll_ok _ (nA + extra) elems tail f h (Nat.le_refl _) ht
+
+/-- Reduction along a dimension of extent `d`, for every function: if each strip records at most
+    `(n_active + extra)·d + finish` operations (`finish` = 2 for functions with a finishing step — mean, norm2 — and 1
+    otherwise: the copy into the result), the regenerated reservation `(n_active+extra)·n + finish·strips` with
+    `n = d·strips` suffices.  (F-04 was exactly the case `finish = 2` reserved as 1.) -/
+theorem C09_site_reduce_dim (nA extra finish d : Nat) (strips : List (List Ev)) (f : Nat)
+    (h : ∀ s ∈ strips, noIdx s = true ∧ pushCount s ≤ (nA + extra) * d + finish) :
+    disciplined f (siteReduceDim (reduce_1 nA 0 (d * strips.length) 0 strips.length extra finish) strips) = true := by
+  apply reduceDim_ok _ ((nA + extra) * d + finish) strips f h
+  simp only [reduce_1]
+  rw [Nat.add_mul, Nat.mul_assoc]
+  exact Nat.le_refl _
+
+/-- the F-04 configuration (mean along a dimension, 4×8, one active leaf): each strip pushes 4 + 2 operations -/
+example : disciplined 0 (siteReduceDim (reduce_1 1 0 32 0 8 0 2)
+    (List.replicate 8 ([Ev.lhs] ++ List.replicate 4 Ev.push ++ [.lhs, .check 1, .push, .lhs, .check 1, .push, .lhs]))) = true := by decide
+
 /-! Non-vacuity and sensitivity: a concrete disciplined stream from a tiny buffer runs clean while growing
 three times, and an under-reserved one (reserve 1, push 3) faults from an adversarial state the model computes. -/
 example : disciplined 0 (siteArrayAssignArray 2 3) = true ∧ (run (initial 1) (siteArrayAssignArray 2 3)).2 = false ∧
